@@ -41,6 +41,7 @@ func (c *BaseClient) connStateUpdate(newState ConnState) {
 	c.mu.Unlock()
 
 	if c.ConnState != nil && lastState != state {
+		verifEvent("connStateCb", int64(state))
 		c.ConnState(state, err)
 	}
 }
